@@ -160,6 +160,26 @@ func genFramePlan(seed uint64, thorough bool) *Plan {
 			}
 			items = append(items, Item{Args: bs(a...)})
 		}
+		if g.chance(3) {
+			// a request whose size is exactly a power of two, delivered in one piece to a
+			// connection with nothing else outstanding, and nothing sent after it until the
+			// reply is there: reads that fill a buffer exactly, with no byte to follow
+			target := []int{1024, 4096, 8192, 16384, 32768, 65536}[g.r.IntN(6)]
+			key := g.key()
+			for vl := target - 64; vl < target; vl++ {
+				if vl <= 0 {
+					continue
+				}
+				a := bs("SET", key, strings.Repeat("p", vl))
+				if n := len(EncodeCmd(a)); n == target {
+					at := g.r.IntN(len(items) + 1)
+					bn := int64(1000 + 100*c)
+					ins := []Item{{Op: "barrier", N: bn}, {Args: a, Cuts: []int{n}, Tag: "pow2"}, {Op: "barrier", N: bn + 1}}
+					items = append(items[:at:at], append(ins, items[at:]...)...)
+					break
+				}
+			}
+		}
 		p.Clients = append(p.Clients, Client{Items: items, Depth: 1 + g.r.IntN(8)})
 	}
 	return p
